@@ -1,6 +1,6 @@
 (* C07 property theorems only.  Each is closed by [exact] of a lemma of Proofs_C07 and followed by
    Print Assumptions. *)
-From Coq Require Import List NArith Bool Permutation.
+From Coq Require Import List NArith ZArith Bool Permutation.
 From Verif Require Import Common.Str Common.Json C07.Model_C07 C07.Proofs_C07.
 Import ListNotations.
 
@@ -243,3 +243,24 @@ Theorem C07_shared_clone_not_independent : exists d es,
   length (value_run d es) = 3.
 Proof. exists w_hist_doc, w_history. exact shared_clone_not_independent. Qed.
 Print Assumptions C07_shared_clone_not_independent.
+
+(* filter expressions: an array token of the JSON pointer is an index only if it is ASCII digits, non-negative and
+   without a leading zero (RFC 6901, core/transforms.py after repo fix 5f4626e6) *)
+Theorem C07_pointer_index_rfc6901 : forall s z,
+  parse_index s = Some z ->
+  s <> [] /\ forallb is_digit s = true /\ (0 <= z)%Z /\ (s = [48%N] \/ hd 0%N s <> 48%N).
+Proof. exact parse_index_spec. Qed.
+Print Assumptions C07_pointer_index_rfc6901.
+
+(* sentinel: the int()-style rule used before the fix is a different function (/tags/-1 was the last tag,
+   /tags/01 the second) *)
+Theorem C07_pointer_rule_differs :
+  let doc := JObj [(s_tags, JArr [JStr [117]%N; JStr [100]%N])] in
+  let p_minus1 := [47;116;97;103;115;47;45;49]%N in
+  let p_01 := [47;116;97;103;115;47;48;49]%N in
+  let p_1 := [47;116;97;103;115;47;49]%N in
+  resolve_pointer doc p_minus1 = None /\ resolve_pointer_legacy doc p_minus1 = Some (JStr [100]%N) /\
+  resolve_pointer doc p_01 = None /\ resolve_pointer_legacy doc p_01 = Some (JStr [100]%N) /\
+  resolve_pointer doc p_1 = Some (JStr [100]%N) /\ resolve_pointer_legacy doc p_1 = Some (JStr [100]%N).
+Proof. exact pointer_rule_differs. Qed.
+Print Assumptions C07_pointer_rule_differs.
